@@ -127,7 +127,7 @@ def burlEncode (flags : Nat) (s look : Bytes) : Bytes :=
   else if flagSet flags Extracted.burlEncodePsnde then encNde true s look
   else if flagSet flags Extracted.burlEncodeB64u then b64uEnc s
   else if flagSet flags Extracted.burlDecodeB64u then b64uDec s
-  else []
+  else s        -- no encoding flag (only case flags): unencoded
 
 /-- burl_append(b, str, len, flags): the bytes appended to `b`.
     `s` = str[0..len), `look` = the bytes following it in memory (up to the NUL). -/
